@@ -11,10 +11,11 @@ Batch(k, s, n) == [i \in 1..n |-> Tri((k + (i - 1) * s) % 64)]
 
 \* batches of 1..6 orientations: 24 offsets x 4 strides x 6 lengths, plus every single orientation
 MCBatches == { Batch(k, s, n) : k \in 0..23, s \in {1, 5, 7, 11}, n \in 1..6 } \cup { <<r>> : r \in All }
-MCBigQuick == { Batch(3, 7, 100) }
+\* batch sizes around typical internal block sizes (250 / 251, 500, 1000) and a batch that repeats one orientation
+MCBigQuick == { Batch(3, 7, 100), Batch(1, 5, 250), Batch(2, 3, 251), Batch(0, 11, 500), Batch(5, 7, 1000), Batch(9, 0, 3), Batch(2, 0, 251) }
 MCBigThorough == { Batch(k, s, n) : k \in {0, 9}, s \in {1, 7, 13}, n \in {100, 257, 500} }
 MCBatchesQuick == MCBatches \cup MCBigQuick
-MCBatchesThorough == MCBatches \cup MCBigThorough
+MCBatchesThorough == MCBatches \cup MCBigThorough \cup MCBigQuick
 
 SignedPermsOf(v) == { [i \in 1..3 |-> s[i] * v[p[i]]] : p \in Perms, s \in [1..3 -> {-1, 1}] }
 Times(k, v) == [i \in 1..3 |-> k * v[i]]
